@@ -17,6 +17,7 @@ import BevySyncModel.Slice.Conn
 import BevySyncModel.Slice.Asset
 import BevySyncModel.Slice.Mat
 import BevySyncModel.Slice.Mark
+import BevySyncModel.Slice.Snap
 /-! `bsmodel`: runs the executable model definitions on the cases the Rust harness prints, one line
 in, one line out (`ok <id>` / `MISMATCH <id> <what>`).  Lines starting with `#` are ignored.
 Only model files are imported (no proofs, no Mathlib), so this links as a native executable.
@@ -747,6 +748,33 @@ def checkMark (toks : List String) : String :=
     | _, _ => "MISMATCH parse mark"
   | _ => "MISMATCH parse mark"
 
+/-! ### the joiner's side of one key (C03): `snapj <id> <present0> <val0|-> <script>`; script tokens ;-separated:
+`s` an `EntitySpawn` of the uuid arrives, `u:<v>` a `ComponentUpdated` of the key, `f` the joiner's frame ends (every
+closure of the frame has run), `x:<present>:<val|->:<count>` what the implementation holds after that frame -/
+def checkSnapJ (toks : List String) : String :=
+  match toks with
+  | [p0, v0, script] =>
+    let pres := p0 == "1"
+    let j0 : Snap.Joiner Nat :=
+      { connected := true, present := pres, count := if pres then 1 else 0, p := { val := v0.toNat? } }
+    let rec go (j : Snap.Joiner Nat) (k : Nat) : List String → String
+      | [] => "ok"
+      | t :: rest =>
+        match t.splitOn ":" with
+        | ["s"] => go (Snap.recv j .spawn) (k + 1) rest
+        | ["u", v] =>
+          match v.toNat? with
+          | some v => go (Snap.recv j (.upd v)) (k + 1) rest
+          | none => "MISMATCH parse snapj value"
+        | ["f"] => go { j with p := Comp.detect j.p } (k + 1) rest
+        | ["x", pr, v, c] =>
+          let mp := if j.present then "1" else "0"
+          if mp == pr && optName j.p.val == v && toString j.count == c then go j (k + 1) rest
+          else s!"MISMATCH snapj: after {k} script steps the model's joiner has replica {mp} value {optName j.p.val} count {j.count}, the implementation replica {pr} value {v} count {c}"
+        | _ => "MISMATCH parse snapj script"
+    go j0 0 (script.splitOn ";")
+  | _ => "MISMATCH parse snapj"
+
 def handle (st : DState) (line : String) : DState × Option String :=
   let line := line.trimAscii.toString
   if line.isEmpty || line.startsWith "#" then (st, none)
@@ -778,6 +806,7 @@ def handle (st : DState) (line : String) : DState × Option String :=
         | "asset" => checkAsset rest
         | "mat" => checkMat rest
         | "mark" => checkMark rest
+        | "snapj" => checkSnapJ rest
         | _ => "MISMATCH unknown line kind"
       (st, some s!"{r} {id}")
     | _ => (st, some "MISMATCH parse ?")
